@@ -252,6 +252,7 @@ class Run:
         # budget between two ticks (Run.case, end of a Coq build): far above any legitimate gap (whole quick runs take < 90 s)
         self.case_budget = float(os.environ.get("VERIF_CASE_TIMEOUT", "300" if tier == "quick" else "2400"))
         self.last_key = None
+        self.pin_changes = []
         watch_arm(self)
         self.rng = random.Random(seed)
         self.red = []            # reasons the proof side / translator / correspondence no longer checks
@@ -290,6 +291,9 @@ class Run:
                 if f"Gen/{fname}" in cone0 or fname.startswith("BROKEN_"):
                     for e in es:
                         self.red.append(f"translator: {fname}: {e}")
+            import pins
+            self.pin_changes = pins.check(self.pid, REPO)
+            self.red += self.pin_changes
             changed = [c for c in changed if f"Gen/{c}" in cone0]
             if changed:
                 self.notes.append("Gen files rewritten from /repo: " + ", ".join(changed))
